@@ -46,6 +46,13 @@ def ownPosition(evaluate):
             if e.pos is None:
                 e.pos = self.pos
             raise
+        except RecursionError:
+            # hashing or comparing a value nested deeper than the host stack
+            raise CklRuntimeError(
+                ValueString("ERROR"),
+                "Maximum recursion depth exceeded",
+                self.pos,
+            )
     return evaluate_positioned
 
 
@@ -130,14 +137,14 @@ def invoke(fn, names_, args, environment, pos):
             if isExit(argvalue):
                 return argvalue
             if argvalue.isMap():
-                for key, value in argvalue.getSortedEntries():
+                for key, value in positioned(argvalue.getSortedEntries, pos):
                     values.append(value)
                     if key.isString():
                         names.append(key.value)
                     else:
                         names.append(None)
             elif argvalue.isList() or argvalue.isSet():
-                for value in argvalue.asList().value:
+                for value in positioned(argvalue.asList, pos).value:
                     values.append(value)
                     names.append(None)
             else:
@@ -1310,6 +1317,7 @@ class NodeIn:
         self.list = lst
         self.pos = pos
 
+    @ownPosition
     def evaluate(self, environment):
         value = self.expression.evaluate(environment)
         if isExit(value):
@@ -1406,6 +1414,7 @@ class NodeList:
     def addItem(self, item):
         self.items.append(item)
 
+    @ownPosition
     def evaluate(self, environment):
         result = ValueList()
         for item in self.items:
@@ -1747,6 +1756,7 @@ class NodeMap:
         self.keys.append(key)
         self.values.append(value)
 
+    @ownPosition
     def evaluate(self, environment):
         result = ValueMap()
         for i in range(len(self.keys)):
@@ -1893,6 +1903,7 @@ class NodeObject:
         self.keys.append(key)
         self.values.append(value)
 
+    @ownPosition
     def evaluate(self, environment):
         result = ValueObject()
         for i in range(len(self.keys)):
@@ -2159,6 +2170,7 @@ class NodeSet:
     def addItem(self, item):
         self.items.append(item)
 
+    @ownPosition
     def evaluate(self, environment):
         result = ValueSet()
         for item in self.items:
